@@ -94,7 +94,9 @@ Theorem c05_deleted_iff_resolved_and_unmodified a l frozen :
   In a l /\ ~ exists f, In f frozen /\ f_res f = true /\ f_id f = a_id a /\ f_upd f = a_upd a.
 Proof. exact (In_delete_if_not_modified a l frozen). Qed.
 
-Theorem c05_insert_stores_the_alert a l : In a (store_set l a).
+(* an insert stores the alert unless the group already holds a strictly newer version of it (C14) *)
+Theorem c05_insert_stores_the_alert a l :
+  (forall b, In b l -> a_id b = a_id a -> a_upd b <= a_upd a) -> In a (store_set l a).
 Proof. exact (store_set_has a l). Qed.
 
 (* A failed flush (slow or failing receiver) removes nothing and logs nothing: the resolved alert is reported again. *)
